@@ -298,6 +298,10 @@ func c09Exec(line string) string {
 	if !ok {
 		return "bad-case"
 	}
+	if strings.HasPrefix(c.mode, "N:") {
+		// a schema of the naming / declaring-store family, carried by the case (c09_naming.go)
+		return c09nExec(c)
+	}
 	d, st := c09Prepare(c.history, c.corrupt)
 	defer d.close()
 	if st != c.state {
@@ -753,8 +757,16 @@ func c09Flush(out *bufio.Writer) {
 					return
 				}
 				c := c09Queue[i]
-				d, st := c09Prepare(c.history, c.corrupt)
-				d.close()
+				var st string
+				if _, desc, ok := c09nMode(c.mode); ok {
+					d, s := c09nPrepare(desc, c.history, c.corrupt)
+					d.close()
+					st = s
+				} else {
+					d, s := c09Prepare(c.history, c.corrupt)
+					d.close()
+					st = s
+				}
 				lines[i] = fmt.Sprintf("%s @H %s @C %s @S %s\n", c.mode, strings.Join(c.history, ";"), strings.Join(c.corrupt, ";"), st)
 			}
 		}()
@@ -896,6 +908,7 @@ func c09Gen(tier string, seed uint64, out *bufio.Writer) {
 		}
 	}
 	c09GenInteracting(tier, r, out)
+	c09nGenCases(tier, r, out)
 	if tier == "thorough" {
 		fc := c09FixedCatalogue()
 		var rec func(start int, chosen []string)
